@@ -547,6 +547,7 @@ var decJobs = []decJob{
 	{"pkg/builder/assignment.go", "assignmentBuilder", "addressed", "addressed", "", false, ""},
 	{"pkg/builder/assignment.go", "assignmentBuilder", "isStructFieldAccessible", "isStructFieldAccessible", "", false, ""},
 	{"pkg/builder/assignment.go", "assignmentBuilder", "dispatch", "dispatch", "", false, ""},
+	{"pkg/builder/assignment.go", "assignmentBuilder", "resolveExpr", "resolveStep", "", false, "%loop"},
 	{"pkg/parser/interface.go", "Parser", "findConvergenEntries", "entryStep", "", false, "%loop"},
 	{"pkg/parser/interface.go", "Parser", "findConvergenEntries", "findConvergenEntries", "", true, ""},
 	{"pkg/parser/method.go", "Parser", "parseMethods", "parseMethodsStep", "", false, "%loop"},
